@@ -188,27 +188,26 @@ pub fn exec(op: &str, a: &[u64]) -> Result<Outcome, String> {
             }
         }
         "corruptws" => {
-            // corruptws g text seed iw dw ds   (probabilities in 1/1000)
+            // corruptws g text seed iw dw out   (probabilities in 1/1000; out = the output observed by the
+            // generating run, judged by the model: possible for SOME random stream the probabilities allow)
             let (g, s) = r.gtext()?;
             let seed = r.nat()?;
             let iw = r.nat()? as f64 / 1000.0;
             let dw = r.nat()? as f64 / 1000.0;
-            let ds = r.list(|r| Ok((r.bool()?, r.bool()?)))?;
+            let recorded = r.string()?;
             r.end()?;
             if !(iw > 0.0 || dw > 0.0) {
                 return Err("both probabilities zero".into());
-            }
-            if ds != decisions(&s, g, seed, iw, dw) {
-                return Err("decision stream in request is not the ChaCha8 stream of the seed".into());
             }
             let f = preprocessing(PreprocessingFnConfig::WhitespaceCorruption(Part::Input, iw, dw, g));
             let info = TextDataInfo { seed, file_idx: 0, marks: Default::default() };
             let (item, _) = f(TrainData::new(s.clone(), None), info.clone()).map_err(|e| e.to_string())?;
             let (item2, _) = f(TrainData::new(s.clone(), None), info).map_err(|e| e.to_string())?;
             let out = item.verif_input().to_string();
-            let mut o = Outcome::new(ok_str(&out));
+            let mut o = Outcome::new("accept".to_string());
             o.check(item.verif_target() == s, "target was modified");
             o.check(item2.verif_input() == out, "not a deterministic function of (text, seed)");
+            o.check(recorded == out, "not a deterministic function of (text, seed): differs from the output of the generating run");
             let nonws = |x: &str| clusters(x, g).into_iter().filter(|c| !c.iter().all(|&u| char::from_u32(u as u32).unwrap().is_whitespace())).collect::<Vec<_>>();
             if gen::is_clean_str(&s) && unmixed(&s, g) && g && (nonws(&out) != nonws(&s) || !unmixed(&out, g)) {
                 // F15: an inserted space fuses with a following lone Extend/ZWJ cluster when the
@@ -286,18 +285,6 @@ pub fn unicode_tables(ctx: &mut Ctx) {
 }
 
 /// the per-character threshold outcomes of the ChaCha8 stream of `seed` (DESIGN §5.3, exact tie)
-pub fn decisions(s: &str, g: bool, seed: u64, iw: f64, dw: f64) -> Vec<(bool, bool)> {
-    let iw = iw.clamp(0., 1.);
-    let dw = dw.clamp(0., 1.);
-    let mut rng = ChaCha8Rng::seed_from_u64(seed);
-    CS::split(s, g)
-        .map(|_| {
-            let r: f64 = rng.random();
-            (r < dw, r < iw)
-        })
-        .collect()
-}
-
 fn req_gtext(s: &str, g: bool) -> Vec<u64> {
     let mut v = vec![];
     enc_gtext(&mut v, s, g);
@@ -414,23 +401,25 @@ pub fn run_c14(ctx: &mut Ctx) {
     for i in 0..n {
         let g = ctx.rng.random_bool(0.5);
         let s = if i % 20 == 19 { gen::ws_text(&mut ctx.rng, 10, true) } else { gen::clean_text(&mut ctx.rng, 6, i % 3 != 0) };
-        let seed: u64 = if i % 7 == 0 { ctx.rng.random() } else { ctx.rng.random_range(0..1000) };
+        let seed: u64 = gen::seed(&mut ctx.rng);
         let probs = [0u64, 0, 100, 300, 500, 900, 1000];
         let mut iw = probs[ctx.rng.random_range(0..probs.len())];
         let dw = probs[ctx.rng.random_range(0..probs.len())];
         if iw == 0 && dw == 0 {
             iw = 500;
         }
-        let ds = decisions(&s, g, seed, iw as f64 / 1000.0, dw as f64 / 1000.0);
         let mut v = req_gtext(&s, g);
         v.push(seed);
         v.push(iw);
         v.push(dw);
-        v.push(ds.len() as u64);
-        for (a, b) in ds {
-            v.push(a as u64);
-            v.push(b as u64);
-        }
+        let f = preprocessing(PreprocessingFnConfig::WhitespaceCorruption(Part::Input, iw as f64 / 1000.0, dw as f64 / 1000.0, g));
+        let info = TextDataInfo { seed, file_idx: 0, marks: Default::default() };
+        let out = match std::panic::catch_unwind(std::panic::AssertUnwindSafe(|| f(TrainData::new(s.clone(), None), info))) {
+            Ok(Ok((item, _))) => item.verif_input().to_string(),
+            // an error or a panic is reproduced (and reported) by the exec side
+            _ => String::new(),
+        };
+        enc_str(&mut v, &out);
         ctx.case("corruptws", &v);
     }
 }
